@@ -50,3 +50,65 @@ pub fn blocking_query_uds(
     }
     chrony_candm::blocking_query_uds(request_body, options)
 }
+
+/// What an armed fault point does when it fires.
+#[derive(Debug, Copy, Clone, PartialEq, Eq)]
+pub enum FaultKind {
+    /// The thread panics at the fault point.
+    Panic,
+    /// The function containing the fault point returns early.
+    Return,
+}
+
+struct ArmedFault {
+    name: String,
+    nth: u32,
+    kind: FaultKind,
+    seen: u32,
+    fired_at: Option<std::time::Instant>,
+}
+
+static FAULT: Mutex<Option<ArmedFault>> = Mutex::new(None);
+
+/// Arm the fault point `name` so that it fires the `nth` time (0-based) it is reached.
+pub fn arm_fault(name: &str, nth: u32, kind: FaultKind) {
+    *FAULT.lock().unwrap() = Some(ArmedFault {
+        name: name.to_owned(),
+        nth,
+        kind,
+        seen: 0,
+        fired_at: None,
+    });
+}
+
+/// The instant at which the armed fault fired, if it did.
+pub fn fault_fired_at() -> Option<std::time::Instant> {
+    FAULT.lock().unwrap().as_ref().and_then(|f| f.fired_at)
+}
+
+/// Named fault point. Returns true if the caller must return early; panics if armed to panic.
+pub fn fault_point(name: &str) -> bool {
+    let kind = {
+        let mut guard = match FAULT.lock() {
+            Ok(g) => g,
+            Err(_) => return false,
+        };
+        match guard.as_mut() {
+            Some(f) if f.name == name && f.fired_at.is_none() => {
+                if f.seen == f.nth {
+                    f.fired_at = Some(std::time::Instant::now());
+                    Some(f.kind)
+                } else {
+                    f.seen += 1;
+                    None
+                }
+            }
+            _ => None,
+        }
+    };
+    match kind {
+        Some(FaultKind::Panic) => panic!("verif: injected fault at {}", name),
+        Some(FaultKind::Return) => true,
+        None => false,
+    }
+}
